@@ -31,6 +31,7 @@ struct Faults {
   uint32_t eio = 0; // read returns -1/EIO
   uint32_t enospc = 0; // write returns -1/ENOSPC (possibly after a short write)
   uint32_t eagain = 0; // non-blocking descriptors: spurious EAGAIN
+  uint32_t eintr_close = 0; // close() returns -1/EINTR AFTER releasing the descriptor (Linux semantics: it must not be retried)
 };
 
 enum class Kind { REG, DIR, STREAM, URANDOM };
